@@ -12,6 +12,8 @@
   PANIC      reviewed inventory of panic-capable constructs on the reader path
   CONSUMED   (shared with C05) also the snappy arm: the decompressed buffer is read entirely or Err   (found F35)
   IOERR      ... end of a slice is an io UnexpectedEof like end of a reader (the report-once latch keys on it) (found F36)
+  shared     the whole inventory of C04 (panic-capable sites, loops, depth, allocation on the datum decode path): the bytes
+             of a damaged block reach the datum decoder
 It does NOT decide "yields only genuine values" for every truncation/corruption, nor decompressor resource use.
 """
 from ..lib import *
